@@ -2,6 +2,7 @@ package main
 
 import (
 	"fmt"
+	"math"
 	"sort"
 	"strings"
 	"time"
@@ -106,6 +107,9 @@ func probeRateVals(fn api.RateFunction, interval time.Duration) (string, bool) {
 	first := 0
 	for i := 0; i < 25; i++ {
 		v := fn(t)
+		if v == math.MinInt64 || v == math.MaxInt64 { // what int(NaN) / int(±Inf) give: not a rate anybody asked for
+			return "nanrate", true
+		}
 		if i == 0 {
 			first = v
 		} else if v != first {
